@@ -64,19 +64,22 @@ def explore(part, prog, failing, bound, max_execs):
     root = part.scratch
     log = root / "log"
 
-    def run_one(prefix):
+    def run_one(prefix, _retry=False):
         d = Path(tempfile.mkdtemp(dir=root))
         tasks.reset_log(log)
         try:
             try:
                 o = WP.with_watchdog(lambda: E.run_execution(lambda: WP.make_task(spec, wfin), d, prefix,
-                                                            state_fn=E.default_state), 30)
+                                                            state_fn=E.default_state), 120 if _retry else 30)
             except WP.Hang:
                 o = E.Outcome()
                 o.kind = "hang"
                 o.explorer = None
             if WP.WATCHDOG["fired"]:
                 o.kind = "hang"
+            if o.kind == "hang" and not _retry:  # must reproduce with 4x the budget (busy machine)
+                shutil.rmtree(d, ignore_errors=True)
+                return run_one(prefix, _retry=True)
             o.log = [WP.canon(r) for r in WP.log_records(tasks.read_log())]
             o.cached_ok = set()
             if o.kind != "hang":
